@@ -15,7 +15,6 @@ import collections
 import concurrent.futures
 import json
 import os
-import shutil
 
 import vcheck as V
 
@@ -122,12 +121,7 @@ def gen_contexts(c, tier, n_per_cfg):
 
 
 def run_one(path, i, seed_):
-    tmp = os.path.join(V.HARNESS, "target", "tmp", "c03-%d-%d" % (os.getpid(), i))
-    os.makedirs(tmp, exist_ok=True)
-    try:
-        rc, out = V.ckbv("c03", ["run", "--in", path, "--only", i, "--seed", seed_], timeout=900, env={"TMPDIR": tmp})
-    finally:
-        shutil.rmtree(tmp, ignore_errors=True)
+    rc, out = V.ckbv("c03", ["run", "--in", path, "--only", i, "--seed", seed_], timeout=900)
     return i, rc, out
 
 
